@@ -79,8 +79,8 @@ Proof. exact grant_ok. Qed.
 Print Assumptions C09_grant_is_spec.
 
 (* histories of credential operations: for every history the model (regenerated grant + tables) reaches the password
-   state the specification prescribes (PUT /device keeps the passwords), and an operation by a caller who is below admin
-   in the current state changes nothing *)
+   state the specification prescribes (PUT /device keeps the passwords; a restart of the hub changes no credential), and an
+   operation by a caller who is below admin in the current state changes nothing *)
 Theorem C09_history_state :
   forall fl,
     (exists h f rq, dispatch gen_tables fl (route_template RDevice) PUT = DServe h f rq) ->
@@ -93,11 +93,16 @@ Theorem C09_no_credential_change_below_admin :
   forall fl,
     (exists h f rq, dispatch gen_tables fl (route_template RDevice) PUT = DServe h f rq) ->
     (exists h f rq, dispatch gen_tables fl (route_template RDevice) PATCH = DServe h f rq) ->
-    forall st o c, cred_level grant_spec st c < LV_ADMIN -> step_model gen_tables grant fl st o c = (st, false).
+    forall st o c, cred_level grant_spec st c < LV_ADMIN -> fst (step_model gen_tables grant fl st o c) = st.
 Proof.
   exact (fun fl => no_credential_change_below_admin gen_tables grant fl wrapper_sound wrapper_refuses gen_table_ok grant_ok).
 Qed.
 Print Assumptions C09_no_credential_change_below_admin.
+
+Theorem C09_restart_keeps_credentials :
+  forall fl st c, fst (step_model gen_tables grant fl st OpRestart c) = st /\ fst (step_spec st OpRestart c) = st.
+Proof. intros; split; reflexivity. Qed.
+Print Assumptions C09_restart_keeps_credentials.
 
 (* optional features: complete finite check that every routing entry is guarded by exactly the conditions the
    specification gives to its route (history: the setting AND a samples-capable driver) and every handler method by its
